@@ -105,7 +105,7 @@ def reset():
 
 def split_key(key):
     rel, qual = key.split("::")
-    return rel, qual
+    return rel, qual.split("#")[0]     # "file::qual#body" = contract on the body of a decorated function (see DESIGN 14.2)
 
 
 def find_def(key):
